@@ -2,6 +2,7 @@ package main
 
 import (
 	"bufio"
+	"bytes"
 	"encoding/json"
 	"flag"
 	"fmt"
@@ -34,7 +35,7 @@ func loaderCLI(args []string) int {
 	defer os.RemoveAll(tmpDir())
 	tr := 1000000 // (trace ids of their own, apart from the loader scenarios)
 	for _, layout := range []string{"commands.yml", "assets/commands.yml"} {
-		for _, dbflag := range []string{"none", "missing"} {
+		for _, dbflag := range []string{"none", "missing", "dotdot", "big"} {
 			for _, notebook := range []bool{false, true} {
 				tr++
 				home := filepath.Join(tmpDir(), fmt.Sprintf("clihome%d", tr))
@@ -47,13 +48,30 @@ func loaderCLI(args []string) int {
 						[]byte("- command: \"zqpersmark --run\"\n  description: \"Marker of the notebook\"\n  keywords: [\"zqpersmark\"]\n"), 0o644)
 				}
 				run := func(marker string) bool {
+					runCwd := cwd
 					argv := []string{"search", "--format", "json", "--limit", "5", "--all-platforms"}
-					if dbflag == "missing" {
+					switch dbflag {
+					case "missing":
 						argv = append(argv, "--database", filepath.Join(home, "no-such-dir", "commands.yml"))
+					case "dotdot": // the good file named through a parent-directory step, run from a directory with no database near it
+						runCwd = filepath.Join(home, "emptywork")
+						os.MkdirAll(runCwd, 0o755)
+						argv = append(argv, "--database", runCwd+"/../work/"+layout)
+					case "big": // a good file of more than nine megabytes (a long comment header, then the entries)
+						bigF := filepath.Join(home, "big-commands.yml")
+						if _, err := os.Stat(bigF); err != nil {
+							var bb bytes.Buffer
+							for bb.Len() < 9<<20 {
+								bb.WriteString("# generated header line, kept for the record of where these commands came from ......................\n")
+							}
+							bb.WriteString("- command: \"zqmainmark --run\"\n  description: \"Marker of the main file\"\n  keywords: [\"zqmainmark\"]\n" + mainYAML)
+							os.WriteFile(bigF, bb.Bytes(), 0o644)
+						}
+						argv = append(argv, "--database", bigF)
 					}
 					argv = append(argv, "--", marker)
 					cmd := exec.Command(os.Getenv("VERIF_WTF"), argv...)
-					cmd.Dir = cwd
+					cmd.Dir = runCwd
 					cmd.Env = []string{"HOME=" + home, "XDG_CONFIG_HOME=" + filepath.Join(home, ".config"), "PATH=/usr/bin:/bin", "NO_COLOR=1"}
 					b, _ := cmd.CombinedOutput()
 					items, _ := parseJSONBlock(string(b))
